@@ -5,8 +5,9 @@ Mirrors, as of the commits `fix: ignore fetch results that don't belong to the o
 `fix: fail a peer's ongoing fetches when its session is reset by a new connection`:
 
 * `crates/radicle-node/src/service.rs`: `Service::{fetch, _fetch, fetch_refs_at, try_fetch, queue_fetch,
-  fetched, dequeue_fetches, connected, disconnected, connect, wake/maintain_persistent}` and the part of
-  `handle_message`/`handle_announcement` that leads from a refs announcement to `fetch_refs_at`;
+  fetched, dequeue_fetches, connected, disconnected, connect, fetch_missing_repositories,
+  wake/maintain_persistent}` and the parts of `handle_message`/`handle_announcement` that lead from a refs
+  announcement to `fetch_refs_at` and from an inventory announcement to `fetch`;
 * `crates/radicle-node/src/service/session.rs`: `Session::{fetching, fetched, queue_fetch, dequeue_fetch,
   is_at_capacity, to_connected, to_disconnected}`, `MAX_FETCH_QUEUE_SIZE = 128`, the `PartialEq` of
   `QueuedFetch` (two queued fetches are equal only if neither carries a result channel);
@@ -106,6 +107,10 @@ structure Cfg where
   persist : List Nid
   /-- `refs_status_of`: the wanted part of an announced / queued refs token (`0` = nothing) -/
   want : Nat → Nat
+  /-- Event-alphabet switch: `true` = a worker result is only delivered to the service while the node it
+  comes from has a connected session (an approximation, at service level, of `Wire::worker_result`, which
+  drops results for unknown / disconnecting peers); `false` = results are delivered unconditionally. -/
+  wireFilter : Bool
 
 /-- An `Io::Fetch` pushed on the outbox. -/
 structure Emit where
@@ -300,6 +305,28 @@ def refsAnn (c : Cfg) (s : State) (rid : Rid) (n : Nid) (v : Nat) : Except Err S
     | .attempted => fetchRefsAt c (setSession s n (some x.toConnected)) rid n v false
     | .connected _ => fetchRefsAt c s rid n v false
 
+/-- An inventory announcement of `n` listing `rid`, received from `n`, in the situation where
+`handle_announcement` fetches: the announcement is fresh (the routing table was updated by it), `rid` is
+seeded and not in the local inventory. `self.fetch(rid, announcer, FETCH_TIMEOUT, None)`. -/
+def invAnn (c : Cfg) (s : State) (rid : Rid) (n : Nid) : Except Err State :=
+  match s.sessions n with
+  | none => .ok s
+  | some x =>
+    match x.st with
+    | .disconnected => .ok s
+    | .attempted => fetch c (setSession s n (some x.toConnected)) rid n 0 false
+    | .connected _ => fetch c s rid n 0 false
+
+/-- `Service::fetch_missing_repositories`: `plan` lists, in the order the code visits them, the seeded
+repositories missing from storage with each of their connected seeds (`self.seeds(&rid)?.connected()`,
+a function of the routing table and the RNG — an input here). One full fetch is requested per pair. -/
+def fetchAll (c : Cfg) : State → List (Rid × Nid) → Except Err State
+  | s, [] => .ok s
+  | s, (rid, n) :: rest =>
+    match fetch c s rid n 0 false with
+    | .ok s' => fetchAll c s' rest
+    | .error e => .error e
+
 /-- `Service::maintain_persistent` (+ `Service::attempted`) when every retry time has passed. -/
 def redial (c : Cfg) (ss : Nid → Option Session) : Nid → Option Session := fun n =>
   match ss n with
@@ -309,13 +336,15 @@ def redial (c : Cfg) (ss : Nid → Option Session) : Nid → Option Session := f
     | _ => some x
   | none => none
 
-/-- `Service::wake` once every interval has elapsed: the idle task dequeues; `maintain_persistent`
-re-dials the disconnected persistent peers. -/
-def wake (c : Cfg) (s : State) (perm : List Nid) : Except Err State :=
+/-- `Service::wake` once every interval has elapsed: the idle task dequeues; the sync task fetches the
+missing repositories (`plan`); `maintain_persistent` re-dials the disconnected persistent peers. -/
+def wake (c : Cfg) (s : State) (perm : List Nid) (plan : List (Rid × Nid)) : Except Err State :=
   match dequeueFetches c s perm with
   | .error e => .error e
   | .ok s1 =>
-    .ok { s1 with sessions := redial c s1.sessions }
+    match fetchAll c s1 plan with
+    | .error e => .error e
+    | .ok s2 => .ok { s2 with sessions := redial c s2.sessions }
 
 inductive Op
   | connIn (n : Nid)
@@ -324,24 +353,35 @@ inductive Op
   | disc (n : Nid) (link : Link) (perm : List Nid)
   | fetchCmd (rid : Rid) (n : Nid)
   | refsAnn (rid : Rid) (n : Nid) (v : Nat)
+  | invAnn (rid : Rid) (n : Nid)
   /-- delivery of the worker result of fetch `fid` (`ok` is not looked at by the scheduling) -/
   | result (fid : Nat) (ok : Bool) (perm : List Nid)
-  | wake (perm : List Nid)
+  | wake (perm : List Nid) (plan : List (Rid × Nid))
   deriving Repr
 
 def findPending (s : State) (fid : Nat) : Option (Nat × Rid × Nid) :=
   s.pending.find? (fun p => p.1 == fid)
 
-/-- Delivery of the result of fetch `fid` (nothing happens if it is not outstanding). -/
+/-- Does `Wire::worker_result` forward a result of node `n` to the service (service-level view)? -/
+def forwards (c : Cfg) (s : State) (n : Nid) : Bool :=
+  !c.wireFilter ||
+    match s.sessions n with
+    | some x => x.isConnected
+    | none => false
+
+/-- Delivery of the result of fetch `fid` (nothing happens if it is not outstanding; the result is
+consumed without reaching the service if `Wire` does not forward it). -/
 def result (c : Cfg) (s : State) (fid : Nat) (perm : List Nid) : Except Err State :=
   match findPending s fid with
   | none => .ok s
   | some (_, rid, n) =>
-    let stale := match s.fetching rid with
-      | some f => f.frm == n && f.fid != fid
-      | none => false
-    fetched c { s with pending := s.pending.filter (fun p => p.1 != fid)
-                       misattributed := s.misattributed || stale } rid n perm
+    if forwards c s n then
+      let stale := match s.fetching rid with
+        | some f => f.frm == n && f.fid != fid
+        | none => false
+      fetched c { s with pending := s.pending.filter (fun p => p.1 != fid)
+                         misattributed := s.misattributed || stale } rid n perm
+    else .ok { s with pending := s.pending.filter (fun p => p.1 != fid) }
 
 def step (c : Cfg) (s0 : State) (op : Op) : Except Err State :=
   let s := { s0 with emits := [] }
@@ -352,8 +392,9 @@ def step (c : Cfg) (s0 : State) (op : Op) : Except Err State :=
   | .disc n l perm => disconnected c s n l perm
   | .fetchCmd rid n => fetch c s rid n 0 true
   | .refsAnn rid n v => refsAnn c s rid n v
+  | .invAnn rid n => invAnn c s rid n
   | .result fid _ perm => result c s fid perm
-  | .wake perm => wake c s perm
+  | .wake perm plan => wake c s perm plan
 
 def runFrom (c : Cfg) : State → List Op → Except Err State
   | s, [] => .ok s
